@@ -3,6 +3,7 @@ use std::path::Path;
 
 pub mod c01;
 pub mod c02;
+pub mod c03;
 pub mod c05;
 pub mod c07;
 pub mod c12;
@@ -12,6 +13,7 @@ pub fn run(id: &str, cfg: &Config) -> i32 {
 	match id {
 		"C01" => c01::run(cfg),
 		"C02" => c02::run(cfg),
+		"C03" => c03::run(cfg),
 		"C05" => c05::run(cfg),
 		"C07" => c07::run(cfg),
 		"C12" => c12::run(cfg),
@@ -52,6 +54,7 @@ pub fn replay(id: &str, cfg: &Config, path: &Path) -> i32 {
 			}
 			Some(mon.rep.violations.iter().map(|v| format!("[{}] {}", v.signature, v.what)).collect())
 		}
+		("C03", _) => c03::replay_case(cfg, &case),
 		_ => None,
 	};
 	match fired {
